@@ -196,8 +196,15 @@ impl ZeroCopyBuffer {
             return Ok(0);
         }
 
-        let bytes_read = reader.read(writable)
-            .map_err(|e| ZiporaError::io_error(format!("Failed to fill buffer: {}", e)))?;
+        // ErrorKind::Interrupted is not an error: retry (the error type of this function
+        // cannot carry the kind up to a read_exact / write_all that would retry)
+        let bytes_read = loop {
+            match reader.read(writable) {
+                Ok(n) => break n,
+                Err(e) if e.kind() == io::ErrorKind::Interrupted => continue,
+                Err(e) => return Err(ZiporaError::io_error(format!("Failed to fill buffer: {}", e))),
+            }
+        };
         
         self.write_pos += bytes_read;
         Ok(bytes_read)
@@ -210,8 +217,13 @@ impl ZeroCopyBuffer {
             return Ok(0);
         }
 
-        let bytes_written = writer.write(readable)
-            .map_err(|e| ZiporaError::io_error(format!("Failed to drain buffer: {}", e)))?;
+        let bytes_written = loop {
+            match writer.write(readable) {
+                Ok(n) => break n,
+                Err(e) if e.kind() == io::ErrorKind::Interrupted => continue,
+                Err(e) => return Err(ZiporaError::io_error(format!("Failed to drain buffer: {}", e))),
+            }
+        };
         
         self.read_pos += bytes_written;
         Ok(bytes_written)
@@ -417,8 +429,11 @@ impl<R: Read> ZeroCopyReader<R> {
         let mut temp_buf = vec![0u8; 8192];
         while len > 0 {
             let to_skip = len.min(temp_buf.len());
-            let bytes_read = self.inner.read(&mut temp_buf[..to_skip])
-                .map_err(|e| ZiporaError::io_error(format!("Failed to skip bytes: {}", e)))?;
+            let bytes_read = match self.inner.read(&mut temp_buf[..to_skip]) {
+                Ok(n) => n,
+                Err(e) if e.kind() == io::ErrorKind::Interrupted => continue,
+                Err(e) => return Err(ZiporaError::io_error(format!("Failed to skip bytes: {}", e))),
+            };
 
             if bytes_read == 0 {
                 return Err(ZiporaError::io_error("Unexpected end of stream while skipping"));
